@@ -19,7 +19,7 @@ TECHNIQUE = "complete product of save_output subsets x environment x estimator x
 RULE = (
     "save_output in all 16 subsets of {results,data,config,conformalization} plus 'argument omitted' x APP_ENV in {local, dev} (real process "
     "environment, one worker pool each) x estimator (3) x gate outcome {passes, fails} x aggregate list {default, with county}; after each passing "
-    "bootstrap run also the national-summary call; and every two-run history over save_output in {[], [conformalization], [results], [results, conformalization]}^2 x "
+    "bootstrap run also the national-summary call; the 17 save_output variants x environment with the configuration and / or the baseline data fetched from remote storage instead of handed in; the library's own command line entry point over the 16 subsets of --save_output x environment x two estimators; and every two-run history over save_output in {[], [conformalization], [results], [results, conformalization]}^2 x "
     "estimator pairs x {parameter argument omitted, one dictionary reused} in one process. Oracle: exact multiset of put_object keys, live-result keys first and present even when the gate "
     "fails, exact set of local files, every key matches ^<root>/<election id>/\\S+$ in the configured bucket. non-trivial = the run is expected to "
     "persist something (remote or local)"
@@ -34,7 +34,7 @@ SELFCHECK_INDEX = 5
 
 
 def bounds(tier):
-    return {"save_output": "17 variants", "APP_ENV": ["local", "dev"], "estimators": 3, "gate": ["passes", "fails"], "aggregate_lists": 2}
+    return {"save_output": "17 variants", "APP_ENV": ["local", "dev"] + (["prod"] if tier == "thorough" else []), "estimators": 3, "gate": ["passes", "fails"], "aggregate_lists": 2, "history_length": 2 if tier == "quick" else 3}
 
 
 def cases(tier, seed):
@@ -53,6 +53,18 @@ def cases(tier, seed):
                 for setup in ("np2", "ga2"):
                     for gate in ("passes", "fails"):
                         out.append({"env": {"APP_ENV": env}, "save_output": so, "container": container, "setup": setup, "gate": gate, "agg": "pc_cf", "seed": seed})
+    # the configuration and / or the baseline data are not handed in but fetched from remote storage (the flow of the
+    # library's own command line): reading them must not persist anything that was not asked for
+    for env in ("local", "dev"):
+        for so in subsets:
+            for source in ("config", "data", "both"):
+                out.append({"env": {"APP_ENV": env}, "save_output": so, "source": source, "setup": "np2", "gate": "passes", "agg": "pc_cf", "seed": seed})
+    # the library's own command line (click entry point elexmodel.cli.cli): every subset of --save_output options,
+    # configuration and data fetched from remote storage
+    for env in ("local", "dev"):
+        for so in subsets[:-1]:
+            for pm in ("nonparametric", "gaussian"):
+                out.append({"env": {"APP_ENV": env}, "kind": "cli", "save_output": so, "pm": pm, "seed": seed})
     # histories: two estimate runs in one process, on fresh clients, with the parameter argument omitted (library default)
     # or one dictionary reused by the caller; the second run must persist exactly what *it* was asked to
     seq_opts = [[], ["conformalization"], ["results"], ["results", "conformalization"]]
@@ -62,6 +74,22 @@ def cases(tier, seed):
                 for pair in (("ga2", "ga2"), ("np2", "ga2"), ("ga2", "np2")):
                     for params in ("omitted", "shared_dict"):
                         out.append({"env": {"APP_ENV": env}, "kind": "sequence", "first": first, "second": second, "setups": list(pair), "params": params, "seed": seed})
+    if tier == "thorough":
+        # a second non-local environment name; single-estimand setups; three-run histories
+        for so in subsets:
+            for setup in ("np2", "ga2", "bs1", "np1", "ga1"):
+                for gate in ("passes", "fails"):
+                    out.append({"env": {"APP_ENV": "prod"}, "save_output": so, "setup": setup, "gate": gate, "agg": "pc_cf", "seed": seed})
+        for env in ("local", "dev"):
+            for so in subsets:
+                for setup in ("np1", "ga1"):
+                    for gate in ("passes", "fails"):
+                        out.append({"env": {"APP_ENV": env}, "save_output": so, "setup": setup, "gate": gate, "agg": "pc_cf", "seed": seed})
+        for env in ("local", "dev"):
+            for steps in itertools.product(seq_opts, repeat=3):
+                for triple in (("ga2", "ga2", "ga2"), ("ga2", "np2", "ga2")):
+                    for params in ("omitted", "shared_dict"):
+                        out.append({"env": {"APP_ENV": env}, "kind": "sequence", "first": steps[0], "second": steps[1], "steps": [list(x) for x in steps], "setups": list(triple), "params": params, "seed": seed})
     return out
 
 
@@ -108,6 +136,66 @@ def _expected_keys(cfg, so, env, passed=True):
     return exp
 
 
+def _cli(case):
+    """One run of the command line entry point; inputs come from the (scripted) remote store, as on a fresh machine."""
+    import json
+
+    import numpy as np
+    from click.testing import CliRunner
+
+    from elexmodel import cli as climod
+
+    cov = Counter()
+    V = []
+    env = case["env"]["APP_ENV"]
+    so = list(case["save_output"])
+    cfg = E.make_cfg(pi_method=case["pm"], estimands=["turnout"], alphas=[0.7], aggregates=["postal_code", "county_fips", "unit"], features=[])
+    units = E.background(case["seed"], "G", 40, "AA2", partial=0)
+    baseline, _ = E.frames(units, cfg)
+    data = baseline.copy()
+    byid = {u["id"]: u for u in units}
+    for e in ("turnout", "dem", "gop"):
+        data[f"results_{e}"] = [byid[i][f"r_{e}"] for i in data.geographic_unit_fips]
+    fakes.S3_STORE.clear()
+    fakes.S3_STORE[f"{S3_ROOT}/{E.ELECTION_ID}/config/{E.ELECTION_ID}.json"] = json.dumps(E.raw_config(cfg))
+    fakes.S3_STORE[f"{S3_ROOT}/{E.ELECTION_ID}/data/G/data_precinct.csv"] = data.to_csv(index=False)
+    args = [E.ELECTION_ID, "--office_id", "G", "--geographic_unit_type", "precinct", "--estimands", "turnout", "--pi_method", case["pm"], "--prediction_intervals", "0.7",
+            "--percent_reporting", "75", "--aggregates", "postal_code", "--aggregates", "county_fips", "--aggregates", "unit",
+            "--model_parameters", "{'fit_margin_outlier_model': False, 'fit_turnout_outlier_model': False}"]
+    for o in so:
+        args += ["--save_output", o]
+    cwd0 = os.getcwd()
+    scratch = tempfile.mkdtemp(prefix="mc_c18_")
+    del fakes.S3_LOG[:]
+    try:
+        os.chdir(scratch)
+        np.random.seed(case["seed"] + 11)  # the command line shuffles the units with numpy's global generator
+        res = CliRunner().invoke(climod.cli, args, catch_exceptions=True)
+        files = sorted(os.path.relpath(os.path.join(d, f), scratch) for d, _, fs in os.walk(scratch) for f in fs)
+    finally:
+        os.chdir(cwd0)
+        shutil.rmtree(scratch, ignore_errors=True)
+        fakes.S3_STORE.clear()
+    log = list(fakes.S3_LOG)
+    del fakes.S3_LOG[:]
+    ctx = f"env={env} command line {case['pm']} --save_output {so or '(not given)'}"
+    if res.exit_code != 0:
+        V.append({"sig": "C18:cli-run-failed", "msg": f"{ctx}: exit code {res.exit_code}: {type(res.exception).__name__}: {str(res.exception)[:300]}"})
+        return {"violations": V, "cov": dict(cov), "outcome": "failed", "nontrivial": True}
+    keys = sorted(re.sub(r"\s+", "", r["Key"] or "") for r in log if r["op"] == "put_object")
+    exp = sorted(_expected_keys(cfg, so, env))
+    if keys != exp:
+        kind = "nothing-requested-but-written" if not exp else ("remote-missing" if set(exp) - set(keys) else "remote-extra")
+        V.append({"sig": f"C18:{kind}", "msg": f"{ctx}: remote writes extra={sorted(set(keys) - set(exp))} missing={sorted(set(exp) - set(keys))}"})
+    exp_files = sorted(([f"data/{E.ELECTION_ID}/G/data_precinct.csv"] if "data" in so else []) + ([f"config/{E.ELECTION_ID}.json"] if "config" in so else []))
+    if files != exp_files:
+        V.append({"sig": "C18:local-files", "msg": f"{ctx}: local files {files}, expected {exp_files}"})
+    cov["command_line_runs"] += 1
+    if not exp and not exp_files:
+        cov["command_line_runs_expecting_nothing"] += 1
+    return {"violations": V, "cov": dict(cov), "outcome": sha([keys, files])[:16], "nontrivial": bool(exp or exp_files)}
+
+
 def _sequence(case):
     from elexmodel.client import ModelClient
 
@@ -120,7 +208,7 @@ def _sequence(case):
     scratch = tempfile.mkdtemp(prefix="mc_c18_")
     try:
         os.chdir(scratch)
-        for step, (setup, so) in enumerate(zip(case["setups"], (case["first"], case["second"]))):
+        for step, (setup, so) in enumerate(zip(case["setups"], case.get("steps") or (case["first"], case["second"]))):
             cfg = S.cfg_for(setup, "pc_cf", "drop", 100)
             baseline, feed = E.frames(units, cfg)
             kwargs = dict(features=list(cfg["features"]), aggregates=list(cfg["aggregates"]), fixed_effects={}, pi_method=cfg["pi_method"], save_output=list(so), handle_unreporting="drop")
@@ -132,8 +220,8 @@ def _sequence(case):
             keys = sorted(re.sub(r"\s+", "", r["Key"] or "") for r in fakes.S3_LOG if r["op"] == "put_object")
             exp = sorted(_expected_keys(cfg, so, env))
             if keys != exp:
-                kind = "history-dependent-writes" if step == 1 else "remote-missing"
-                V.append({"sig": f"C18:{kind}", "msg": f"env={env} sequence {case['setups']} save_output {case['first']} then {case['second']} (model_parameters {case['params']}): run {step + 1} wrote extra={sorted(set(keys) - set(exp))} missing={sorted(set(exp) - set(keys))}"})
+                kind = "history-dependent-writes" if step >= 1 else "remote-missing"
+                V.append({"sig": f"C18:{kind}", "msg": f"env={env} sequence {case['setups']} save_output {case.get('steps') or [case['first'], case['second']]} (model_parameters {case['params']}): run {step + 1} wrote extra={sorted(set(keys) - set(exp))} missing={sorted(set(exp) - set(keys))}"})
                 break
             cov["sequence_runs"] += 1
     finally:
@@ -141,7 +229,7 @@ def _sequence(case):
         shutil.rmtree(scratch, ignore_errors=True)
         del fakes.S3_LOG[:]
     cov["sequences"] += 1
-    return {"violations": V, "cov": dict(cov), "outcome": sha([v["sig"] for v in V]), "nontrivial": True, "transitions": 2}
+    return {"violations": V, "cov": dict(cov), "outcome": sha([v["sig"] for v in V]), "nontrivial": True, "transitions": len(case["setups"])}
 
 
 def evaluate(case):
@@ -180,6 +268,8 @@ def _evaluate(case):
 
     if case.get("kind") == "sequence":
         return _sequence(case)
+    if case.get("kind") == "cli":
+        return _cli(case)
     cov = Counter()
     V = []
     env = case["env"]["APP_ENV"]
@@ -187,7 +277,7 @@ def _evaluate(case):
 
     def viol(kind, msg):
         if not any(v["sig"] == f"C18:{kind}" for v in V):
-            V.append({"sig": f"C18:{kind}", "msg": f"env={env} save_output={case['save_output']} {setup} gate={case['gate']} agg={case['agg']}: {msg}"})
+            V.append({"sig": f"C18:{kind}", "msg": f"env={env} save_output={case['save_output']} inputs_from_remote={case.get('source') or 'none'} {setup} gate={case['gate']} agg={case['agg']}: {msg}"})
 
     cfg = S.cfg_for(setup, case["agg"], "drop", 100)
     n = 16 if case["gate"] == "passes" else 2
@@ -206,13 +296,22 @@ def _evaluate(case):
     scratch = tempfile.mkdtemp(prefix="mc_c18_")
     del fakes.S3_LOG[:]
     nat_keys_expected = []
+    source = case.get("source")
+    fakes.S3_STORE.clear()
+    if source:
+        import json
+
+        fakes.S3_STORE[f"{S3_ROOT}/{E.ELECTION_ID}/config/{E.ELECTION_ID}.json"] = json.dumps(E.raw_config(cfg))
+        fakes.S3_STORE[f"{S3_ROOT}/{E.ELECTION_ID}/data/G/data_precinct.csv"] = baseline.to_csv(index=False)
+        cov["runs_reading_inputs_from_remote_storage"] += 1
     try:
         os.chdir(scratch)
         client = ModelClient()
         try:
             client.get_estimates(
                 feed, E.ELECTION_ID, "G", list(cfg["estimands"]), prediction_intervals=list(cfg["alphas"]), percent_reporting_threshold=100,
-                geographic_unit_type="precinct", raw_config=E.raw_config(cfg), preprocessed_data=baseline, model_parameters=mp, **kwargs,
+                geographic_unit_type="precinct", raw_config=None if source in ("config", "both") else E.raw_config(cfg),
+                preprocessed_data=None if source in ("data", "both") else baseline, model_parameters=mp, **kwargs,
             )
             outcome = "completed"
         except Exception as e:
@@ -228,6 +327,7 @@ def _evaluate(case):
     finally:
         os.chdir(cwd0)
         shutil.rmtree(scratch, ignore_errors=True)
+        fakes.S3_STORE.clear()
     log = list(fakes.S3_LOG)
     del fakes.S3_LOG[:]
     expected_outcome = "completed" if case["gate"] == "passes" else "ModelNotEnoughSubunitsException"
@@ -292,4 +392,4 @@ def _evaluate(case):
     return {"violations": V, "cov": dict(cov), "outcome": sha([norm, files, outcome])[:16], "nontrivial": bool(exp or exp_files)}
 
 
-REQUIRED_COUNTERS = {"expect_live_results": 50, "live_results_with_failing_gate": 20, "expect_conformalization": 10, "expect_local_files": 100, "expect_nothing": 20, "sequences": 100, "non_list_containers": 30}
+REQUIRED_COUNTERS = {"expect_live_results": 50, "live_results_with_failing_gate": 20, "expect_conformalization": 10, "expect_local_files": 100, "expect_nothing": 20, "sequences": 100, "non_list_containers": 30, "runs_reading_inputs_from_remote_storage": 100, "command_line_runs": 50, "command_line_runs_expecting_nothing": 4}
